@@ -250,6 +250,15 @@ impl PoolMap {
         let mut removed_ids = vec![id.to_owned()];
         removed_ids.extend(self.calc_descendants(id));
 
+        // The surviving ancestors of every removed entry lose that entry's weight. This has to
+        // happen while the links still exist: once they are dropped below, `remove_entry` finds no
+        // ancestors any more and `descendants_*` (and the evict key) of the survivors stay stale.
+        for id in &removed_ids {
+            if let Some(entry) = self.entries.get_by_id(id).map(|e| e.inner.clone()) {
+                self.update_ancestors_index_key(&entry, EntryOp::Remove);
+            }
+        }
+
         // update links state for remove, so that we won't update_descendants_index_key in remove_entry
         for id in &removed_ids {
             self.remove_entry_links(id);
